@@ -1,6 +1,8 @@
 import IgVerif.Lemmas.Expr
 import IgVerif.Gen.C07Tables
 import IgVerif.Lemmas.Literal
+import IgVerif.Lemmas.EnumVal
+import IgVerif.Lemmas.CharLit
 /-!
 # C07 — recorded constants equal the values the C++ compiler computes
 -/
@@ -134,5 +136,59 @@ example : Lit.getNumber [48, 98, 49, 49, 59] = some (3, .bin, [59]) := by decide
 example : Lit.getNumber [48, 120, 70, 70, 39, 70, 70, 44] = some (65535, .hex, [44]) := by decide
 example : Lit.getNumber [49, 39, 48, 48, 48, 32] = some (1000, .dec, [32]) := by decide
 example : Lit.getNumber [48, 49, 55, 59] = some (15, .oct, [59]) := by decide
+
+open IgVerif.EnumVal in
+/-- **Implicit enumerator values** ([dcl.enum]/2). Whatever mixture of written and omitted
+initialisers an enum has — literals, names of other constants, sums — the expressions
+`add_element` builds for its enumerators evaluate to: the written value where one is
+written, 0 for a first enumerator without one, the previous value plus one otherwise.
+(Values are mathematical integers here: the code adds 1 in 64-bit arithmetic.) -/
+theorem c07_enum_increment (ρ : Nat → Int) (gs : List (Option EnumVal.Ex)) :
+    (elements none gs).map (EnumVal.Ex.eval ρ) = spec ρ none gs :=
+  elements_spec ρ none gs
+
+open IgVerif.EnumVal in
+-- enum { a, b = K + 2, c, d, e = 7, f }  with K = 10
+example : (elements none [none, some (.add (.sym 0) (.lit 2)), none, none, some (.lit 7), none]).map (EnumVal.Ex.eval (fun _ => 10)) =
+    [0, 12, 13, 14, 7, 8] := by decide
+
+/-! ## character literals -/
+open IgVerif.Chr IgVerif.Lit in
+/-- **An ordinary character** denotes its code (`char` is signed: codes above 127 are negative,
+as for the C++ compiler on this platform). -/
+theorem c07_char_plain (c : Nat) (rest : List Nat) (h1 : c ≠ 10) (h2 : c ≠ 39) (h3 : c ≠ 92) :
+    charValue (c :: rest) = toSigned c :=
+  charValue_plain c rest h1 h2 h3
+
+open IgVerif.Chr in
+/-- **Simple escapes**: the whole table of [lex.ccon] (`\a \b \f \n \r \t \v \\ \' \" \?`) and GCC's `\e`. -/
+theorem c07_char_simple_escapes :
+    [(97, 7), (98, 8), (102, 12), (110, 10), (114, 13), (116, 9), (118, 11), (92, 92), (39, 39), (34, 34), (63, 63), (101, 27)].all
+      (fun p => charValue [92, p.1, 39] == (p.2 : Int)) = true := by decide
+
+open IgVerif.Chr in
+/-- **Octal escapes** of one, two or three digits (the literal's closing quote, or any other
+non-octal character, ends them): the value is the number the digits spell, as a `char`. -/
+theorem c07_char_octal (a b c x : Nat) (rest : List Nat) (ha : isOct a = true) (hb : isOct b = true) (hc : isOct c = true)
+    (hx : isOct x = false) :
+    charValue (92 :: a :: b :: c :: rest) = toSigned ((((a - 48) * 8 + (b - 48)) * 8 + (c - 48)) % 256) ∧
+    charValue (92 :: a :: b :: x :: rest) = toSigned (((a - 48) * 8 + (b - 48)) % 256) ∧
+    charValue (92 :: a :: x :: rest) = toSigned ((a - 48) % 256) := by
+  rw [charValue_escape, charValue_escape, charValue_escape, scanEscape_oct3 a b c rest ha hb hc,
+    scanEscape_oct2 a b x rest ha hb hx, scanEscape_oct1 a x rest ha hx]
+  exact ⟨rfl, rfl, rfl⟩
+
+open IgVerif.Chr IgVerif.Lit in
+/-- **Hexadecimal escapes** read every hex digit that follows, as C++ does; the value is the
+number they spell, as a `char`. -/
+theorem c07_char_hex (h1 : Nat) (ds : List Nat) (x : Nat) (rest : List Nat) (e1 : isHex h1 = true)
+    (eds : ∀ d ∈ ds, isHex d = true) (ex : isHex x = false) :
+    charValue (92 :: 120 :: h1 :: (ds ++ x :: rest)) = toSigned (strtol 16 (h1 :: ds) % 256) := by
+  rw [charValue_escape, scanEscape_hex h1 ds x rest e1 eds ex]
+
+-- 'A' = 65, '\n' = 10, '\101' = 65, '\x41' = 65, '\xff' = -1, '\0' = 0, '\377' = -1
+example : [Chr.charValue [65, 39], Chr.charValue [92, 110, 39], Chr.charValue [92, 49, 48, 49, 39], Chr.charValue [92, 120, 52, 49, 39],
+    Chr.charValue [92, 120, 102, 102, 39], Chr.charValue [92, 48, 39], Chr.charValue [92, 51, 55, 55, 39],
+    Chr.charValue [92, 120, 48, 52, 49, 39]] = [65, 10, 65, 65, -1, 0, -1, 65] := by decide
 
 end IgVerif.C07
